@@ -143,6 +143,14 @@ def run(tier, replay):
                 stdins = stdins[:1] if tier == "quick" else stdins[:2]
             for si in stdins:
                 texts.append(("|".join([what, name, argstr, wrap, place]), program(lines, place), si))
+        # 1b. grammar-aware space: statement templates x slot fillers (Slots.tla); what the checker accepts must run
+        import slots
+        sl, s3, t3, cmd3 = slots.enumerate_slots(os.path.join(d, "tlc_slots"))
+        states += s3
+        trans += t3
+        rng.shuffle(sl)
+        for (tn, fa, fb) in sl[: (250000 if tier == "thorough" else 25000)]:
+            texts.append(("slot:" + tn, slots.program(tn, fa, fb), "7\r\nabc, 2\r\n"))
         # 2. accepted programs of the other families and of the repository, on several inputs
         import c01, c03, c04, c05
         extra = []
